@@ -280,6 +280,47 @@ pub fn ladder_family(ctx: &mut Ctx) {
             }
         }
     }
+    // the instruction set changes between two top-level runs (InstructionSet::add): run() works with the set as it
+    // is now -- its outcome still equals single-stepping with a cache taken now (CODE.RAND draws from that cache)
+    for k in 0..3 {
+        real.iset.add(format!("LATE.{}", k), Instruction::new(tick(0)));
+        real.icache = real.iset.cache();
+        for prog in [
+            Tree::L(vec![Tree::I(7), Tree::ins("CODE.RAND")]),
+            Tree::L(vec![Tree::I(3), Tree::ins("CODE.RAND"), Tree::I(4), Tree::ins("CODE.RAND"), Tree::ins(&format!("LATE.{}", k))]),
+        ] {
+            // new names come from the `names` crate's own generator (not scripted): disabled
+            let mut base = bs[0].1.clone();
+            base.cfg.new_erc_name_probability = 0.0;
+            base.bindings.insert("X".into(), Tree::I(1));
+            check_case(ctx, &mut real, "no-new-names", &prog, &base, 50, 500, 5000);
+        }
+    }
+    // grow, shrink, grow: the cap applies to each step against the size just before it, not against an earlier peak
+    for k in 1..=4usize {
+        let prog = Tree::L(vec![Tree::ins("GROW.I.4"), Tree::ins("GROW.F.3"), Tree::ins("INTEGER.FLUSH"), Tree::ins("FLOAT.FLUSH"), Tree::ins(&format!("GROW.B.{}", k)), Tree::ins("NOOP")]);
+        for (bl, base) in &bs {
+            for cap in [k - 1, k, 4, 5] {
+                check_case(ctx, &mut real, bl, &prog, base, 50, cap, 5000);
+            }
+        }
+    }
+    // ... and a set that is used for a run while it holds a single instruction and is LOADED afterwards
+    {
+        let mut iset = pushr::push::instructions::InstructionSet::new();
+        iset.add("ONLY.ONE".to_string(), Instruction::new(tick(0)));
+        let icache = iset.cache();
+        let mut r2 = Real { iset, icache };
+        let mut base = bs[0].1.clone();
+        base.cfg.new_erc_name_probability = 0.0;
+        base.bindings.insert("X".into(), Tree::I(1));
+        check_case(ctx, &mut r2, "single-instruction set", &Tree::L(vec![Tree::ins("ONLY.ONE"), Tree::I(5), Tree::ins("CODE.RAND")]), &base, 50, 500, 5000);
+        r2.iset.load();
+        r2.icache = r2.iset.cache();
+        for prog in [Tree::L(vec![Tree::I(9), Tree::ins("CODE.RAND")]), Tree::L(vec![Tree::I(6), Tree::ins("CODE.RAND"), Tree::I(12), Tree::ins("CODE.RAND")])] {
+            check_case(ctx, &mut r2, "set loaded after a run", &prog, &base, 50, 500, 5000);
+        }
+    }
     // extreme configuration values (limits "switched off" by a huge number, type boundaries of the fields)
     {
         let progs = [
